@@ -169,3 +169,37 @@ def run_1d(solver, mk, rnames=('r',), tname='t'):
     r = arr([mk(n) for n in rnames])
     sol = solver(r, mk(tname))
     return fields(sol)
+
+
+def capture_locals(func_code_owner, call):
+    """Run call() (real code, concrete mode) and return the local variables of the last invocation of the
+    function `func_code_owner' at the moment it returned (profile hook).  Used to read quantities that a
+    function computes but does not return; the symbolic runs get the same quantities through cut_here."""
+    import sys
+    code = func_code_owner.__code__
+    box = {}
+
+    def prof(frame, event, arg):
+        if event == 'return' and frame.f_code is code:
+            box['locals'] = dict(frame.f_locals)
+    old = sys.getprofile()
+    sys.setprofile(prof)
+    try:
+        res = call()
+    finally:
+        sys.setprofile(old)
+    return res, box.get('locals', {})
+
+
+class ModProxy(object):
+    """stand-in for a module alias (e.g. `sci_opt`): attributes from `over' first, then the real module"""
+
+    def __init__(self, real, **over):
+        self.__dict__['_real'] = real
+        self.__dict__['_over'] = over
+
+    def __getattr__(self, name):
+        o = self.__dict__['_over']
+        if name in o:
+            return o[name]
+        return getattr(self.__dict__['_real'], name)
